@@ -85,6 +85,72 @@ def case_bytes(case):
     return bytes.fromhex(case.get("in", ""))
 
 
+def judge_timeouts(probes, to_ms=400):
+    """[(name, what is wrong, probe)] for the probes that violate the (tolerant) expectations."""
+    out = []
+    for pr in probes:
+        name, bad = pr.get("probe"), None
+        if not pr.get("process_alive", True):
+            bad = "the proxy process died"
+        elif name in ("silent-peer", "half-header-then-silence"):
+            if not pr.get("closed_by_server") or pr.get("status") != 0:
+                bad = "the connection was not closed by the proxy (status %s)" % pr.get("status")
+            elif not (to_ms - 150 <= pr.get("closed_after_ms", -1) <= to_ms + 2500):
+                bad = "closed after %s ms, header timeout is %d ms" % (pr.get("closed_after_ms"), to_ms)
+            elif pr.get("other_connection_status") != 200:
+                bad = "another connection was not served meanwhile (status %s)" % pr.get("other_connection_status")
+        elif name == "header-completed-after-timeout":
+            if pr.get("status") != 0:
+                bad = "a header completed after the timeout was still served (status %s)" % pr.get("status")
+        elif name == "slow-header-within-timeout":
+            if pr.get("status") != 200:
+                bad = "a header completed within the timeout was not served (status %s)" % pr.get("status")
+        elif name == "stall-after-k-bytes":
+            if pr.get("not_closed") or pr.get("served"):
+                bad = "%s stalled connections were not closed, %s were served" % (pr.get("not_closed"), pr.get("served"))
+            elif not (to_ms - 150 <= pr.get("closed_after_ms_min", -1) and pr.get("closed_after_ms_max", 10**9) <= to_ms + 2500):
+                bad = "stalled connections closed after %s..%s ms, header timeout is %d ms" % (
+                    pr.get("closed_after_ms_min"), pr.get("closed_after_ms_max"), to_ms)
+            elif pr.get("other_connection_status") != 200:
+                bad = "another connection was not served while %s peers stalled" % pr.get("positions")
+            name = "stall-after-k-bytes-v%s" % pr.get("header_version")
+        elif name == "after-all":
+            if pr.get("status") != 200 or pr.get("xff") != "9.9.9.9":
+                bad = "after the timeout probes a well-formed connection got status %s xff %s" % (pr.get("status"), pr.get("xff"))
+        if pr.get("listener"):
+            name = "%s-%s-listener" % (name, pr.get("listener"))
+        if bad:
+            out.append((name, bad, pr))
+    return out
+
+
+def rerun_alone(ctx, hb, replay_obj, sub):
+    """Run one recorded case / probe set alone (harness -replay) in a sub-directory; returns its meta (with the
+    evaluated failures under '_prop_bad')."""
+    d = os.path.join(ctx.work, sub)
+    os.makedirs(d, exist_ok=True)
+    inner = os.path.join(d, "replay_in.json")
+    json.dump(replay_obj, open(inner, "w"))
+    rc, out = common.sh([hb, "-seed", str(ctx.seed), "-tier", ctx.tier, "-out", d, "-replay", inner], timeout=300)
+    mp = os.path.join(d, "meta.json")
+    if rc != 0 or not os.path.exists(mp):
+        return {"_failed": out[-300:]}
+    m = json.load(open(mp))
+    bad = []
+    kinds = m.get("kinds") or []
+    shards = [s for k in kinds for s in k["shards"]]
+    if shards:
+        res = ctx.coq_eval_shards(GROUP, d, shards, idents=("M", "P"), timeout=600)
+        for k in kinds:
+            for shard in k["shards"]:
+                pv = ctx.parse_nlist((res.get(shard) or {}).get("P")) or []
+                bad += list(zip(pv[0::2], pv[1::2]))
+        if res["_errors"]:
+            bad.append((-1, -1))
+    m["_prop_bad"] = bad
+    return m
+
+
 def run(ctx):
     ob_failed = []
     # the harness is built and run in a second thread while the proofs are (re)checked
@@ -228,6 +294,18 @@ def run(ctx):
     for key in sorted(groups):
         lst = sorted(groups[key], key=lambda t: (t[0], json.dumps(t[1], sort_keys=True)))
         n, case = lst[0]
+        if key.startswith("e2e-") and hb is not None and not ctx.replay:
+            # the full proxy in a child process is timing dependent: a failing case is re-run alone before it is reported
+            confirmed = None
+            for cand in lst[:3]:
+                again = rerun_alone(ctx, hb, cand[1], "rerun-e2e")
+                if again.get("_failed") or again.get("_prop_bad"):
+                    confirmed = cand
+                    break
+            if confirmed is None:
+                ctx.notes.append({"timing_dependent_scenarios_that_passed_when_rerun_alone": {"key": key, "cases": len(lst)}})
+                continue
+            n, case = confirmed
         ctx.violation(key, case, True,
                       "%d observations of the implementation fail the C08 oracle this way; smallest input (%d bytes): %r%s"
                       % (len(lst), n, case_bytes(case)[:80], (" note=" + case.get("note")) if case.get("note") else ""))
@@ -255,42 +333,24 @@ def run(ctx):
                 ctx.violation("data-race-in-conn", {"kind": "race", "report": out_r[i:i + 1500] if i >= 0 else out_r[-800:]}, True,
                               "the Go race detector reported %d data races while concurrent callers used one proxyproto.Conn" % n_races)
 
-    # ---- header timeout probes (tested with tolerances, not proved)
+    # ---- header timeout probes (tested with tolerances, not proved); a failing probe is re-run alone before it is reported
     e2e_meta = meta.get("e2e") or {}
-    to_ms = 400
-    for pr in e2e_meta.get("timeouts") or []:
-        name, bad = pr.get("probe"), None
-        if not pr.get("process_alive", True):
-            bad = "the proxy process died"
-        elif name in ("silent-peer", "half-header-then-silence"):
-            if not pr.get("closed_by_server") or pr.get("status") != 0:
-                bad = "the connection was not closed by the proxy (status %s)" % pr.get("status")
-            elif not (to_ms - 150 <= pr.get("closed_after_ms", -1) <= to_ms + 2500):
-                bad = "closed after %s ms, header timeout is %d ms" % (pr.get("closed_after_ms"), to_ms)
-            elif pr.get("other_connection_status") != 200:
-                bad = "another connection was not served meanwhile (status %s)" % pr.get("other_connection_status")
-        elif name == "header-completed-after-timeout":
-            if pr.get("status") != 0:
-                bad = "a header completed after the timeout was still served (status %s)" % pr.get("status")
-        elif name == "slow-header-within-timeout":
-            if pr.get("status") != 200:
-                bad = "a header completed within the timeout was not served (status %s)" % pr.get("status")
-        elif name == "stall-after-k-bytes":
-            if pr.get("not_closed") or pr.get("served"):
-                bad = "%s stalled connections were not closed, %s were served" % (pr.get("not_closed"), pr.get("served"))
-            elif not (to_ms - 150 <= pr.get("closed_after_ms_min", -1) and pr.get("closed_after_ms_max", 10**9) <= to_ms + 2500):
-                bad = "stalled connections closed after %s..%s ms, header timeout is %d ms" % (
-                    pr.get("closed_after_ms_min"), pr.get("closed_after_ms_max"), to_ms)
-            elif pr.get("other_connection_status") != 200:
-                bad = "another connection was not served while %s peers stalled" % pr.get("positions")
-            name = "stall-after-k-bytes-v%s" % pr.get("header_version")
-        elif name == "after-all":
-            if pr.get("status") != 200 or pr.get("xff") != "9.9.9.9":
-                bad = "after the timeout probes a well-formed connection got status %s xff %s" % (pr.get("status"), pr.get("xff"))
-        if pr.get("listener"):
-            name = "%s-%s-listener" % (name, pr.get("listener"))
-        if bad:
-            ctx.violation("timeout-" + str(name), {"kind": "timeout", "probe": name, "note": pr.get("listener", ""), "observed": pr}, True, bad)
+    flaky = []
+    reruns = {}
+    for name, bad, pr in judge_timeouts(e2e_meta.get("timeouts") or []):
+        if hb is not None and not ctx.replay:
+            lst_ = pr.get("listener", "")
+            if lst_ not in reruns:
+                reruns[lst_] = rerun_alone(ctx, hb, {"kind": "timeout", "note": lst_}, "rerun-timeout")
+            again = reruns[lst_]
+            bad2 = [x for x in judge_timeouts((again.get("e2e") or {}).get("timeouts") or []) if x[0] == name]
+            if not bad2:
+                flaky.append({"probe": name, "first_run": bad, "rerun_alone": "passed"})
+                continue
+            bad = bad + "; re-run alone: " + bad2[0][1]
+        ctx.violation("timeout-" + str(name), {"kind": "timeout", "probe": name, "note": pr.get("listener", ""), "observed": pr}, True, bad)
+    if flaky:
+        ctx.notes.append({"timing_dependent_scenarios_that_passed_when_rerun_alone": flaky})
 
     if not prop_bad and model_bad:
         by_kind = collections.defaultdict(list)
